@@ -21,7 +21,7 @@ CHECKS["C15"] = dict(
     category="model_checking",
     text="Placement.tla models the uid/line placement scheme of sort_new_items, merge and the writer's ordering; TLC checks for every bounded history that it refines the ideal relation of the property (placed order stable, new elements directly after the last placed element of their kind), that the uid compaction keeps this true for unbounded histories (small-uid configuration, 118k states), and finds the expected overflow counterexamples for the pinned algorithm with 5-bit uids. Every transition of the bounded graph (incl. states straddling the real 2^30 compaction threshold) is replayed on real models through the public API, and random histories with real loads, merges, pushes and up to 200 consecutive sort_new_items calls are validated against the specification by TLC. A difference from the implementation-shaped model is only reported as a violation if the ideal relation (Trace_PlacementIdeal, written orders only) rejects what was observed.",
     design_ref="DESIGN.md §4.6, §6 C15",
-    note="Model covers the 20 list kinds and comments of one MODULE (not the optional singletons, IF_DATA, USER_RIGHTS); bounded histories for the exhaustive part; comment uids inferred; trusts TLC and the harness projection (written /begin sequence, public uid/line fields).",
+    note="Model covers the 20 list kinds and comments of one MODULE at a time (part of the recorded histories run on the second MODULE of a file; not the optional singletons, IF_DATA, USER_RIGHTS); bounded histories for the exhaustive part; comment uids inferred; trusts TLC and the harness projection (written /begin sequence, public uid/line fields).",
     technique="TLA+ spec (Placement.tla) model-checked with TLC against the ideal relation; TLC-generated transitions replayed into the real code; recorded histories validated against Trace_Placement.tla / Trace_PlacementIdeal.tla",
     engine="tlc+replay",
 )
@@ -30,12 +30,12 @@ CHECKS["C14"] = dict(
     category="model_checking",
     text="The SortFull action of Placement.tla (sort.rs) is model-checked by TLC against the ideal relation of the property (same elements, grouped by kind, ascending names within a kind) and idempotence from every reachable placement state; every exported transition is replayed on real models, where the relations of the property (== content per element, written order, reload equality and order, text idempotence) are evaluated directly on the real objects; random documents with interleaved sort() calls are validated by TLC trace validation, with the ideal trace specification as the judge when the implementation-shaped one rejects.",
     design_ref="DESIGN.md §4.4, §4.6, §6 C14",
-    note="One MODULE, list kinds + comments in the model (other module children are present in the recorded documents but projected out of the order comparison; they are covered by the ==/reload/idempotence relations); bounded state space.",
+    note="One MODULE at a time in the model (files with two MODULEs are judged per module by IdealSortFull, the order of the MODULEs and the content of every element included), list kinds + comments in the model (other module children are present in the recorded documents but projected out of the order comparison; they are covered by the ==/reload/idempotence relations); bounded state space.",
     technique="TLA+ spec (Placement.tla, SortFull) model-checked with TLC; TLC-generated transitions replayed into the real code; recorded histories validated against Trace_Placement.tla / Trace_PlacementIdeal.tla",
     engine="tlc+replay",
 )
 
-_MERGE_NOTE = "One MODULE per file; module graphs are extracted from the Debug rendering of the real objects through the hand-classified reference-site table (tools/graphmodel.py; generation fails if an ident-typed field of the frozen grammar is unclassified); content identities unique except deliberate twins; lenient readings listed in the evidence assumptions. Trusts TLC and the 300-line renderer/extractor."
+_MERGE_NOTE = "Merging is per pair of modules (one MODULE per file; cleanup and check are also run on files with two MODULEs and judged per module); module graphs are extracted from the Debug rendering of the real objects through the hand-classified reference-site table (tools/graphmodel.py; generation fails if an ident-typed field of the frozen grammar is unclassified); content identities unique except deliberate twins; lenient readings listed in the evidence assumptions. Trusts TLC and the 300-line renderer/extractor."
 CHECKS["C08"] = dict(
     category="model_checking",
     text="Graph.tla states C08 as a relation MergeOK(A, B, R) between module graphs (A unchanged, every named element of B represented exactly once under its own or a fresh name, names unique per namespace, nothing invented). TLC enumerates one abstract case per reference site x overlap pattern (identical twin, same name/other content, other kind of the same namespace, homonym in another namespace, pre-existing .MERGE names, conflicting owner, GROUP/FUNCTION union; 3034 cases) and checks the reference merge against the relation; every case plus seeded random module pairs is rendered to A2L, merged by the real merge_modules, and the graphs extracted from the real objects are judged by the same relation in TLC.",
